@@ -91,6 +91,10 @@ func adam_dense_with_gradient(evalGradient DenseGradientF, x0 DenseFloat64Vector
     }
     beta1_t *= beta1
     beta2_t *= beta2
+    // do not accept (and possibly return) a point that violates the constraints
+    if (constraints.Value != nil && !constraints.Value(x2)) {
+      return x1, fmt.Errorf("Constraints voilated")
+    }
     copy(x1, x2)
   }
   return x1, nil
